@@ -166,3 +166,8 @@ LEVEL_TEXT = ('Unbounded theorems for every N, every number of layers and EVERY 
               'with the model; equality of totals/verdict with sequential runs is covered by the world model shared with C03/C12.')
 LEVEL_NOTE = ('Real concurrency below the granularity of a loop iteration (thread start latency, is_alive vs done) is outside the model; '
               'keep-alive marks are checked only for not splitting a block.')
+
+# "a -j N run executes the same tests with the same outcomes as the sequential run": the four-mode batch
+# (list / sequential / -j N / resumed children, with and without --shuffle) compares the modes with each other
+import modes          # noqa: E402
+EXTRA_BATCHES = [modes.Batch('mixed', 12, 150)]
